@@ -8,7 +8,7 @@ import numpy as np
 from sim import gen
 from sim.models import naive_chi2, fast_chi2
 from sim.seams import RandomSeam, patched
-from engines.mc import check_move, check_displacement, check_rotation
+from engines.mc import check_move, check_displacement, check_rotation, table_snapshot, table_unchanged
 from engines.xmap import FrameMonitor, collinear_positions
 
 NAME = "directed"
@@ -99,11 +99,15 @@ def shuffled_keys(table, rng):
     return {k: table[k] for k in keys}
 
 
-def bonds_table(n, edges, pos, factor=None):
+def bonds_table(n, edges, pos, factor=None, order_rng=None):
+    """order_rng: neighbour lists in a random order (a table built from an edge list as it comes) instead of ascending."""
     info = {i: [] for i in range(n)}
     adj = gen.adjacency(n, edges)
     for i in range(n):
-        for j in sorted(adj[i]):
+        nbs = sorted(adj[i])
+        if order_rng is not None:
+            order_rng.shuffle(nbs)
+        for j in nbs:
             length = float(np.linalg.norm(np.array(pos[i]) - np.array(pos[j])))
             if factor is not None:
                 key = (min(i, j), max(i, j))
@@ -129,19 +133,32 @@ def execute(trace, ctx):
 
 def exec_enum_trees(trace, ctx):
     import random as _r
+    import gaddlemaps._transform_molecule as T
     from gaddlemaps import move_mol_atom
     rng = _r.Random(trace["seed"])
     n = trace["n"]
+    real_displ = T.find_atom_random_displ
+    seen = {}
+
+    def mon_displ(atoms_pos, bonds_info, atom_index, *a, **kw):
+        before = np.array(atoms_pos, copy=True)
+        snap_ = table_snapshot(bonds_info)
+        out = real_displ(atoms_pos, bonds_info, atom_index, *a, **kw)
+        table_unchanged(ctx, bonds_info, snap_, "find_atom_random_displ")
+        check_displacement(ctx, before, snap_, atom_index, out)
+        seen["d"] = np.array(out, copy=True)
+        return out
     for idx in range(trace["first"], trace["last"]):
         edges = tree_by_index(n, idx)
         pos = np.array(gen.grow_positions(rng, n, edges, 0.15))
         perturbed = rng.random() < 0.5
         factor = {(min(i, j), max(i, j)): rng.uniform(0.7, 1.3) for i, j in edges} if perturbed else None
-        table = bonds_table(n, edges, pos, factor)
+        nb_rng = rng if idx % 3 == 1 else None         # a third of the trees: neighbour lists in arbitrary order
+        table = bonds_table(n, edges, pos, factor, order_rng=nb_rng)
         # the same molecule and the same moved atom again, with ANOTHER bond table (another conformation of the species):
         # the result must follow the table handed over now, not one seen earlier
         factor2 = {(min(i, j), max(i, j)): rng.uniform(0.7, 1.3) for i, j in edges}
-        table2 = bonds_table(n, edges, pos, factor2)
+        table2 = bonds_table(n, edges, pos, factor2, order_rng=nb_rng)
         if idx % 2:
             table, table2 = shuffled_keys(table, rng), shuffled_keys(table2, rng)
         for moved in range(n):
@@ -151,16 +168,28 @@ def exec_enum_trees(trace, ctx):
                     d = np.zeros(3)        # "move" by nothing: the table must still be imposed
                 before = pos.copy()
                 arr = pos.copy()
+                tb_snap = table_snapshot(tb)
                 try:
                     if (idx + moved) % 5 == 1:
                         out = move_mol_atom(arr.tolist(), tb, atom_index=moved, displ=[float(x) for x in d])   # plain lists
                         arr = before.copy()
+                    elif (idx + moved) % 7 == 3:
+                        # the atom is named, the displacement is drawn (perpendicular to its first neighbours)
+                        with RandomSeam(ctx, (trace["seed"] + 31 * idx + moved) % (2 ** 32), log=False), \
+                                patched(T, "find_atom_random_displ", mon_displ):
+                            seen.clear()
+                            out = move_mol_atom(arr, tb, atom_index=moved, sigma_scale=rng.choice([0.1, 0.5, 2.0]))
+                        d = seen.get("d")
+                        ctx.probe("atom_given_displacement_random")
+                        if d is None:
+                            ctx.probe("random_displacement_not_observed")
                     else:
                         out = move_mol_atom(arr, tb, atom_index=moved, displ=d.copy())
                 except Exception as e:
                     ctx.violate("C07", "move-raised", f"tree #{idx} on {n} atoms, moved atom {moved}: {type(e).__name__}: {e}")
                     return
-                check_move(ctx, before, arr, tb, moved, d, out, tree=True)
+                table_unchanged(ctx, tb, tb_snap, "move_mol_atom")
+                check_move(ctx, before, arr, tb_snap, moved, d, out, tree=True)
                 ctx.steps += 1
         ctx.counters["labelled_trees"] += 1
     ctx.probe("enumerated_tree_batch")
@@ -182,7 +211,10 @@ def exec_random_graph(trace, ctx):
     if trace["table"] == "perturbed":
         factor = {(min(i, j), max(i, j)): rng.uniform(0.7, 1.3) for i, j in edges}
         ctx.probe("bond_table_disagrees_with_geometry")
-    table = bonds_table(n, edges, pos, factor)
+    nb_rng = rng if trace["seed"] % 3 == 1 else None
+    table = bonds_table(n, edges, pos, factor, order_rng=nb_rng)
+    if nb_rng is not None:
+        ctx.probe("neighbour_lists_in_arbitrary_order")
     if trace["seed"] % 2:
         table = shuffled_keys(table, rng)
     real_displ = T.find_atom_random_displ
@@ -190,8 +222,10 @@ def exec_random_graph(trace, ctx):
 
     def mon_displ(atoms_pos, bonds_info, atom_index, *a, **kw):
         before = np.array(atoms_pos, copy=True)
+        snap_ = table_snapshot(bonds_info)
         out = real_displ(atoms_pos, bonds_info, atom_index, *a, **kw)
-        check_displacement(ctx, before, bonds_info, atom_index, out)
+        table_unchanged(ctx, bonds_info, snap_, "find_atom_random_displ")
+        check_displacement(ctx, before, snap_, atom_index, out)
         seen["d"] = np.array(out, copy=True)
         seen["i"] = atom_index
         return out
@@ -222,8 +256,19 @@ def exec_random_graph(trace, ctx):
             arr = pos.copy()
             explicit = rng.random() < 0.4
             only_displ = (not explicit) and rng.random() < 0.3
+            only_index = (not explicit) and (not only_displ) and rng.random() < 0.35
+            tb_snap = table_snapshot(table)
             try:
-                if only_displ:
+                if only_index:
+                    # the atom is named, the displacement is drawn
+                    seen.clear()
+                    moved = rng.randrange(n)
+                    out = move_mol_atom(arr, table, atom_index=moved, sigma_scale=trace["sigma_scale"])
+                    d = seen.get("d")
+                    ctx.probe("atom_given_displacement_random")
+                    if d is None:
+                        ctx.probe("random_displacement_not_observed")
+                elif only_displ:
                     # the displacement is requested, the atom is left to chance
                     drawn.clear()
                     d = np.array(gen.unit_vec(rng)) * rng.choice([0.01, 0.3, 5.0])
@@ -244,10 +289,15 @@ def exec_random_graph(trace, ctx):
                     seen.clear()
                     out = move_mol_atom(arr, table, sigma_scale=trace["sigma_scale"])
                     moved, d = seen.get("i"), seen.get("d")
+                    if moved is None:
+                        ctx.probe("random_displacement_not_observed")
+                        # the moved atom can still be told from the coordinates: on a tree it is the one atom all of whose
+                        # neighbours kept their direction... (not attempted: counted as a gap)
             except Exception as e:
                 ctx.violate("C07", "move-raised", f"{n}-atom {'tree' if tree else 'cyclic graph'}: {type(e).__name__}: {e}")
                 return
-            check_move(ctx, before, arr, table, moved, d, out, tree=tree)
+            table_unchanged(ctx, table, tb_snap, "move_mol_atom")
+            check_move(ctx, before, arr, tb_snap, moved, d, out, tree=tree)
             ctx.steps += 1
             try:
                 kept.append((out, np.array(out, dtype=float, copy=True)))
@@ -258,7 +308,7 @@ def exec_random_graph(trace, ctx):
             elif rng.random() < 0.3:
                 # same connectivity, another bond table (the species in another conformation)
                 factor = {(min(i, j), max(i, j)): rng.uniform(0.7, 1.3) for i, j in edges}
-                new_table = bonds_table(n, edges, pos, factor)
+                new_table = bonds_table(n, edges, pos, factor, order_rng=nb_rng)
                 if rng.random() < 0.5:
                     for k_ in list(table):          # the SAME dict object, edited in place
                         table[k_] = new_table[k_]
@@ -313,10 +363,21 @@ def exec_chi2(trace, ctx):
         dt = rng.choice([np.int64, np.int32, np.int16, np.uint8 if max(nf, nm) < 256 else np.int32, np.int8 if max(nf, nm) < 128 else np.int16])
         restr_arg = np.array(restr, dtype=dt)
         ctx.probe("restraints_as_small_int_array")
+    fixed_in_snap = fixed_in.copy()
+    mob0_in = mob0.copy()
     try:
-        calc = Chi2Calculator(fixed_in, mob0.copy(), restr_arg)
+        calc = Chi2Calculator(fixed_in, mob0_in, restr_arg)
     except Exception as e:
         ctx.violate("C08", "chi2-construct-raised", f"Chi2Calculator({nf}x{nm}, {len(restr)} restraints) raised {type(e).__name__}: {e}")
+        return
+
+    def inputs_intact(when):
+        if not np.array_equal(fixed_in, fixed_in_snap) or fixed_in.dtype != fixed_in_snap.dtype or not np.array_equal(mob0_in, mob0):
+            ctx.violate("C08", "chi2-modifies-construction-arrays", f"the calculator changed the coordinate arrays it was built "
+                                                                    f"from ({when})")
+            return False
+        return True
+    if not inputs_intact("at construction"):
         return
     path = "none" if not restr else ("all" if len({r[0] for r in restr}) == nf else "some")
     ctx.counters["chi2_path:" + path] += 1
@@ -347,6 +408,14 @@ def exec_chi2(trace, ctx):
         if reuse_buffer:
             work[:] = mob
             arg = work
+        elif rep % 4 == 1:
+            arg = np.asfortranarray(mob)                     # column-major copy
+            ctx.probe("mobile_array_fortran_order")
+        elif rep % 4 == 2:
+            wide = np.full((2 * nm + 1, 5), 1e30)            # every second row, three middle columns of a larger array
+            wide[1::2, 1:4][:nm] = mob
+            arg = wide[1::2, 1:4][:nm]
+            ctx.probe("mobile_array_strided_view")
         else:
             arg = mob.copy()
         try:
@@ -361,7 +430,11 @@ def exec_chi2(trace, ctx):
         want, k, ambiguous = naive_chi2(fixed, mob, restr)
         want2, k2, amb2 = fast_chi2(fixed, mob, restr)
         if ambiguous or amb2:
+            # which mobile atom is "nearest" is undefined at a tie, so the factor 1.1^k is: the value is not compared, but it
+            # is still a finite, non-negative number
             ctx.probe("chi2_tie_skipped")
+            if not math.isfinite(val) or val < 0:
+                ctx.violate("C08", "chi2-value", f"measure = {val!r} on a configuration with a nearest-atom tie", key=path)
             continue
         if abs(want - want2) > 1e-9 * max(abs(want), 1e-300) or k != k2:
             from sim.core import HarnessError
@@ -410,6 +483,7 @@ def exec_chi2(trace, ctx):
             ctx.violate("C08", "chi2-relabelling", f"measure changed from {val!r} to {val_p!r} under a consistent relabelling of "
                                                    f"atoms and restraints (path '{path}')", key=path)
             return
+    inputs_intact("after the evaluations")
     ctx.nontrivial = True
     ctx.op("chi2", path)
     ctx.sig.append((nf, nm, len(restr)))
